@@ -36,6 +36,11 @@ type MathParagraph struct {
 
 // MarshalXML 自定义序列化
 func (mp *MathParagraph) MarshalXML(e *xml.Encoder, start xml.StartElement) error {
+	// 作为文档主体的直接子元素编码时，编码器传入的默认名称是类型名（MathParagraph），
+	// 而不是XMLName标签中的 w:p，必须在这里显式指定
+	start.Name = xml.Name{Local: "w:p"}
+	start.Attr = nil
+
 	// 开始段落元素
 	if err := e.EncodeToken(start); err != nil {
 		return err
